@@ -517,6 +517,13 @@ def scenario(col, name, part, doc, links, wit, backend, cycles=2):
     kind, res = h.call(doc.clean)
     if kind == 'ret':
         check_restored(col, name, doc, links, restore0, wit, 'clean#last')
+    # resolving twice without a clean in between adds nothing new: one clean still restores the document
+    k1, _r1 = h.call(doc.finalize)
+    k2, _r2 = h.call(doc.finalize)
+    if k1 == 'ret' and k2 == 'ret':
+        kind, res = h.call(doc.clean)
+        if kind == 'ret':
+            check_restored(col, name, doc, links, restore0, wit, 'clean#after-double-finalize')
     return 'ok'
 
 
